@@ -116,6 +116,8 @@ pub enum T {
     Bomb,
     /// `error("e")`: no effect
     Err,
+    /// `halt`: ends the whole run; not catchable
+    Halt,
     Input,
     Inputs,
     Var(String),
@@ -148,7 +150,13 @@ pub enum T {
     Range(i64, i64, i64),
     /// `$x + .` (used in fold updates)
     AddVar(String),
+    /// `[10,20,30,40,50,60] | .[a:(Z)]`: an effectful, multi-valued upper bound of a slice
+    SliceTo(i64, Box<T>),
+    /// `[10,20,30,40,50,60] | .[(Z)]`: an effectful, multi-valued index
+    IndexAt(Box<T>),
 }
+
+pub const ARR: [i64; 6] = [10, 20, 30, 40, 50, 60];
 
 pub const PRELUDE: &str = "def mk($i): probe($i) | $i;\n";
 
@@ -164,6 +172,7 @@ impl T {
             T::Empty => "empty".into(),
             T::Bomb => "bomb".into(),
             T::Err => "error(\"e\")".into(),
+            T::Halt => "halt".into(),
             T::Input => "input".into(),
             T::Inputs => "inputs".into(),
             T::Var(x) => format!("${x}"),
@@ -196,7 +205,18 @@ impl T {
             T::Until(c, a) => format!("until({}; {})", c.text(), b(a)),
             T::Range(a, c, s) => format!("range({a}; {c}; {s})"),
             T::AddVar(x) => format!("(. + ${x})"),
+            T::SliceTo(a, z) => format!("([10,20,30,40,50,60] | .[{a}:({})])", b(z)),
+            T::IndexAt(z) => format!("([10,20,30,40,50,60] | .[({})])", b(z)),
         }
+    }
+    /// effects sit in index / bound positions of a path (compared as sets, see c03.rs)
+    pub fn has_path_effects(&self) -> bool {
+        if matches!(self, T::SliceTo(..) | T::IndexAt(_)) {
+            return true;
+        }
+        let mut r = false;
+        self.children(&mut |c| r |= c.has_path_effects());
+        r
     }
     pub fn size(&self) -> usize {
         let mut n = 1;
@@ -211,7 +231,7 @@ impl T {
             }
             T::TryQ(a) | T::Label(_, a) | T::First(a) | T::Limit(_, a) | T::Skip(_, a) | T::Nth(_, a)
             | T::IsEmpty(a) | T::Any(a, _) | T::All(a, _) | T::Arr(a) | T::Rec(a) | T::Repeat(a)
-            | T::Recurse(a) | T::While(_, a) | T::Until(_, a) => f(a),
+            | T::Recurse(a) | T::While(_, a) | T::Until(_, a) | T::SliceTo(_, a) | T::IndexAt(a) => f(a),
             T::Foreach(s, _, _, u, e) => {
                 f(s);
                 f(u);
@@ -238,6 +258,7 @@ impl T {
 pub enum X {
     Error(V),
     Break(u64),
+    Halt,
     /// the model ran out of fuel (an endless computation without output)
     Fuel,
 }
@@ -527,6 +548,7 @@ fn eval_(t: &T, env: &Env) -> Stream {
         T::Empty => empty(),
         T::Bomb => steps(vec![Step::E(Ev::Bomb), Step::Err(X::Error(V::Str("bomb".into())))]),
         T::Err => once(Step::Err(X::Error(V::Str("e".into())))),
+        T::Halt => once(Step::Err(X::Halt)),
         T::Input => {
             let sh = env.sh.clone();
             lazy(move || steps(pull_input(&sh)))
@@ -714,6 +736,33 @@ fn eval_(t: &T, env: &Env) -> Stream {
                 flat(eval(f, env), move |v| eval(&me, &env2.with_dot(v)))
             }
         }
+        T::SliceTo(a, z) => {
+            let a = *a;
+            flat(eval(z, env), move |v| {
+                let len = ARR.len() as i64;
+                let upto = match v {
+                    V::Int(i) => Some(if i < 0 { (len + i).max(0) } else { i.min(len) }),
+                    V::Null => Some(len),
+                    _ => None,
+                };
+                match upto {
+                    Some(u) => {
+                        let from = a.clamp(0, len);
+                        let vals = if u > from { ARR[from as usize..u as usize].iter().map(|x| V::Int(*x)).collect() } else { vec![] };
+                        once(Step::Out(V::Arr(vals)))
+                    }
+                    None => once(Step::Err(X::Error(V::Str("cannot use as slice bound".into())))),
+                }
+            })
+        }
+        T::IndexAt(z) => flat(eval(z, env), move |v| match v {
+            V::Int(i) => {
+                let len = ARR.len() as i64;
+                let k = if i < 0 { len + i } else { i };
+                once(Step::Out(if (0..len).contains(&k) { V::Int(ARR[k as usize]) } else { V::Null }))
+            }
+            _ => once(Step::Err(X::Error(V::Str("cannot index array".into())))),
+        }),
         T::Range(a, b, by) => {
             let (mut cur, to, by) = (*a, *b, *by);
             Box::new(std::iter::from_fn(move || {
